@@ -998,7 +998,8 @@ impl Gen {
                                     self.ptr_path(ctx | 1);
                                     n += 1;
                                     descs.push(format!("(0 (g {}))", id));
-                                    format!("p.g({})", id)
+                                    // a map KEY below a weakly held node is itself only weakly reachable
+                                    format!("p.g{}({})", if ctx & 8 != 0 { "0" } else { "" }, id)
                                 }
                                 Ty::Leaf(Leaf::Str) => {
                                     descs.push("(0 l)".into());
